@@ -73,6 +73,8 @@ class TransactionManager:
         self._pending_txn_partitions = set()
         self._txn_consumer_group = None
         self._pending_txn_offsets = deque()
+        # The error that left the open transaction fit only for an abort
+        self._abortable_error = None
 
     # INDEMPOTANCE PART
 
@@ -144,11 +146,13 @@ class TransactionManager:
         self._transition_to(TransactionState.READY)
         self._txn_partitions.clear()
         self._txn_consumer_group = None
+        self._abortable_error = None
         if not self._transaction_waiter.done():
             self._transaction_waiter.set_result(None)
 
     def error_transaction(self, exc):
         self._transition_to(TransactionState.ABORTABLE_ERROR)
+        self._abortable_error = exc
         # NOTE: partitions and the consumer group already registered by the
         # coordinator stay recorded till `complete_transaction`: the abort
         # that follows has to send EndTxn for them
@@ -243,8 +247,11 @@ class TransactionManager:
     def is_fatal_error(self):
         return self.state == TransactionState.FATAL_ERROR
 
-    def has_abortable_error(self):
-        return self.state == TransactionState.ABORTABLE_ERROR
+    def abortable_error(self):
+        """The error of the open transaction, till the transaction is ended
+        (also while the abort that follows the error is in progress)
+        """
+        return self._abortable_error
 
     def wait_for_transaction_end(self):
         return self._transaction_waiter
